@@ -17,6 +17,20 @@ if len(sys.argv) > 3 and sys.argv[3] == "w3":
                   "sites that each look fine alone, rarely used parameters, algorithms or entry points, error paths that leave an object half-updated, and "
                   "(where the property involves native code) changes in src/*.c. Never use pkill/killall or kill processes you did not start yourself. "
                   "Use at most 4 CPU cores at a time. Prefer changes in DIFFERENT parts")
+elif len(sys.argv) > 3 and sys.argv[3] == "w5":
+    t = t.replace("Prefer changes in DIFFERENT parts", "This is a very late round: off-by-one changes of a single length or boundary test, flags or caches not reset "
+                  "between calls, dependence on the carrier type of an argument (bytes/bytearray/memoryview), buffers kept by reference, and operands of "
+                  "another type or curve have all been tried already. Look for defects of a DIFFERENT nature: (a) a defect that only shows in a NON-INITIAL "
+                  "state reached by a specific sequence of three or more calls, in particular after a call that raised, after copy(), or after the object "
+                  "was used in the opposite direction; (b) a defect in the COMBINATION of two optional features or parameters that are each handled "
+                  "correctly alone (two keyword arguments, a rarely used algorithm variant together with a rarely used format or mode, an unusual hash or "
+                  "curve inside a generic scheme); (c) a defect in native code (src/*.c) or in limb/word arithmetic that depends on particular DATA VALUES "
+                  "(a carry out of a full word, an all-ones or zero word, an operand equal to the modulus minus a small value, a counter byte rolling over) "
+                  "rather than on a length; (d) an input that is REJECTED correctly but with the wrong consequences (wrong exception type, object left "
+                  "half-updated, later call affected), or one specific malformed shape that is accepted; (e) behaviour at large scale (counters, lengths or "
+                  "indices beyond 2^8, 2^16 or 2^32; many objects alive at once; many calls on one object); (f) a less used public entry point, helper or "
+                  "alias that duplicates the logic of the main one and can drift from it. Never use pkill/killall or kill processes you did not start "
+                  "yourself. Use at most 3 CPU cores at a time. Prefer changes in DIFFERENT parts")
 elif len(sys.argv) > 3:
     t = t.replace("Prefer changes in DIFFERENT parts", "At least one of the changes must break one of the LESS OBVIOUS obligations of the property "
                   "(the later clauses of the statement, the unusual entry points, rarely used parameters or algorithms), not its headline case. "
